@@ -34,6 +34,11 @@ def ofString (N : Nat) (str : List Nat) (pos n zeroCh : Nat) : Bits :=
     | some c => c != zeroCh
     | none => false
 
+/-- [bitset.cons]: `pos = 0`, `n = basic_string::npos`, `zero = charT('0')`, `one = charT('1')` -/
+def npos : Nat := 2 ^ 64 - 1
+def ch0 : Nat := 48
+def ch1 : Nat := 49
+
 /-! observers -/
 def test (b : Bits) (pos : Nat) : Bool := b pos
 def count (N : Nat) (b : Bits) : Nat := (List.range N).countP b
@@ -46,6 +51,9 @@ def toNat (N : Nat) (b : Bits) : Nat := ((List.range N).map (fun i => if b i the
 /-- `to_string(zero, one)`: character 0 is bit `N-1`, the last character is bit 0 -/
 def toStr (N : Nat) (b : Bits) (zeroCh oneCh : Nat) : List Nat :=
   (List.range N).reverse.map (fun i => if b i then oneCh else zeroCh)
+/-- `to_string()`, `to_string(zero)`: `zero = charT('0')`, `one = charT('1')` -/
+def toStrD (N : Nat) (b : Bits) (zeroCh oneCh : Option Nat) : List Nat :=
+  toStr N b (arg zeroCh ch0) (arg oneCh ch1)
 
 /-! histories -/
 abbrev Store := Nat → Bits
@@ -73,6 +81,9 @@ def step (N : Nat) (st : Store) : Op → Store
   | .fromUll o v => st.put o (ofNat v)
   | .fromStr o str pos n zeroCh _ => st.put o (ofString N str pos n zeroCh)
   | .fromCstr o buf n zeroCh _ => st.put o (ofString N buf 0 n zeroCh)
+  | .setD o pos => st.put o (set1 (st o) pos true)
+  | .fromStrD o str pos n zeroCh _ => st.put o (ofString N str (arg pos 0) (arg n npos) (arg zeroCh ch0))
+  | .fromCstrD o buf n zeroCh _ => st.put o (ofString N buf 0 (arg n npos) (arg zeroCh ch0))
 
 def run (N : Nat) : Store → List Op → Store
   | st, [] => st
